@@ -94,6 +94,25 @@ Theorem C02_commitments_both_layouts : forall H E (maxb : nat) old_sort name key
 Proof. exact layout_created. Qed.
 Print Assumptions C02_commitments_both_layouts.
 
+(* Republish: create_stream into a blob directory that already holds files (name, size).  Whenever a stream is
+   returned it is the clean-directory stream -- every data blob named by H of the ciphertext stored for it, decrypting
+   in descriptor order gives the file back -- and no data blob was adopted from a file already present under that name
+   (whatever that file contains or however long it is); otherwise the publish is refused. *)
+Theorem C02_republish_sound : forall H E D (maxb : nat) dir old_sort name key ivf f s,
+  (forall k iv p, D k iv (E k iv p) = Some p) -> (2 <= maxb)%nat ->
+  create_stream_in H E maxb dir old_sort name key ivf f = Some s ->
+  s_desc s = s_desc (build_stream H E maxb name key ivf f) /\
+  s_cts s = s_cts (build_stream H E maxb name key ivf f) /\
+  decrypt_stream D (s_desc s) (s_cts s) = Some f /\
+  (forall c, In c (s_cts s) -> blocked dir (hex (H c)) = false).
+Proof. exact republish_sound. Qed.
+Print Assumptions C02_republish_sound.
+
+Theorem C02_republish_clean_dir : forall H E (maxb : nat) old_sort name key ivf f,
+  create_stream_in H E maxb [] old_sort name key ivf f = create_stream_layout H E maxb old_sort name key ivf f.
+Proof. exact republish_clean_dir. Qed.
+Print Assumptions C02_republish_clean_dir.
+
 (* sd_hash binds the descriptor: two descriptors whose text fields print without JSON escapes (hex does) and whose
    sd hashes are equal have the same names, key, stream hash and blob entries -- or an explicit H collision.
    (blob hashes compared through BlobInfo.as_dict, which itself identifies None and ''.)  Every descriptor that
